@@ -177,8 +177,20 @@ def symptom_matches(fd, cls, detail=''):
             pat = fd.get('detail_contains')
             if pat and not any(p in (detail or '') for p in pat):
                 continue
+            # per-symptom narrowing: the recorded defect produces these tool-chain messages and no others
+            pat = (fd.get('detail_by_symptom') or {}).get(cls)
+            if pat and not any(p in (detail or '') for p in pat):
+                continue
             return True
     return False
+
+
+def triage_log(fid, prop, lang, tag, cls, what):
+    """dev-time aid: VERIF_TRIAGE_LOG=<file> lists every failure an open finding explained (used to narrow findings)."""
+    p = os.environ.get('VERIF_TRIAGE_LOG')
+    if p:
+        with open(p, 'a') as f:
+            f.write(json.dumps([fid, prop, lang, tag, cls, (what or '')[:600]]) + '\n')
 
 
 def main(checks):
